@@ -202,6 +202,8 @@ class Tables:
         for c in COL:
             for live in (0, 1):
                 yield ("other:%s:%d" % (c, live), {"colour": c, "live": live, "nt": 1})
+                # a child whose type holds no pointers still has to be marked (seed C14-c skipped the barrier for it)
+                yield ("other:%s:%d:leaf" % (c, live), {"colour": c, "live": live, "nt": 0})
 
     def t_backward_barrier(self):
         for ph, pc, pnt in itertools.product(PH, COL, (0, 1)):
@@ -390,8 +392,10 @@ class Tables:
                     yield r
             # DynamicRootSet::stash(&self, mc, root)
             key = self._seed_key("dynamic_roots::DynamicRootSet::stash")
-            for ph, pc, cc in itertools.product(PH, COL, COL):
+            for ph, pc, cc, cnt in itertools.product(PH, COL, COL, (1, 0)):
                 pre = {"path": "DynamicRootSet::stash", "phase": ph, "P": pc, "Pnt": 1, "C": cc}
+                if cnt == 0:
+                    pre["Cnt"] = 0      # a stashed object whose type holds no pointers must be marked all the same
                 if key is None:
                     r = Row("adopt", pre, [], err="anchor stash not found")
                     r.init = {}
@@ -400,7 +404,7 @@ class Tables:
                     continue
                 st_extra = {("set",): adt("dynamic_roots::DynamicRootSet", 0, (gc(1),))}
                 r = self.run_key("adopt", key, [ref(("set",), ()), self.cx(), gc(2)], pre, phase=ph,
-                                 objs={1: {"colour": pc, "nt": 1}, 2: {"colour": cc, "nt": 1}}, mem=st_extra)
+                                 objs={1: {"colour": pc, "nt": 1}, 2: {"colour": cc, "nt": cnt}}, mem=st_extra)
                 r.ret_write = False
                 yield r
         finally:
